@@ -170,7 +170,8 @@ Ch(n)   == [k |-> "char", name |-> n, w |-> 1]
 En(n, t) == [k |-> "enum", name |-> n, w |-> 1, table |-> t]
 Fl(n, w, t) == [k |-> "flags", name |-> n, w |-> w, table |-> t]
 S(n, N) == [k |-> "str", name |-> n, w |-> N]                       \* fixed-width text, NUL padded
-VS(n, max) == [k |-> "vstr", name |-> n, w |-> 0, max |-> max]     \* variable text, NUL padded to a multiple of 4
+VS(n, max) == [k |-> "vstr", name |-> n, w |-> 0, max |-> max, nul |-> FALSE]     \* variable text, NUL padded to a multiple of 4
+VSN(n, max) == [k |-> "vstr", name |-> n, w |-> 0, max |-> max, nul |-> TRUE]     \* ... of which the last byte must be NUL (IS_MTC)
 DurMs(n, w) == [k |-> "dur", name |-> n, w |-> w, scale |-> 1]
 DurCs(n, w) == [k |-> "dur", name |-> n, w |-> w, scale |-> 10]
 RL(n)   == [k |-> "racelaps", name |-> n, w |-> 1]
@@ -226,7 +227,7 @@ Layout == [
   Mso |-> [type |-> 11, size |-> 0, fields |-> <<R, P(1), U8("ucid"), U8("plid"), En("usertype", MsoUserTypeT), U8("textstart"), VS("msg", 128)>>],
   Iii |-> [type |-> 12, size |-> 0, fields |-> <<R, P(1), U8("ucid"), U8("plid"), P(2), VS("msg", 64)>>],
   Mst |-> [type |-> 13, size |-> 68, fields |-> <<R, P(1), S("msg", 64)>>],
-  Mtc |-> [type |-> 14, size |-> 0, fields |-> <<R, En("sound", SoundTypeT), U8("ucid"), U8("plid"), P(2), VS("text", 128)>>],
+  Mtc |-> [type |-> 14, size |-> 0, fields |-> <<R, En("sound", SoundTypeT), U8("ucid"), U8("plid"), P(2), VSN("text", 128)>>],
   Mod |-> [type |-> 15, size |-> 20, fields |-> <<R, P(1), W32("bit16"), W32("rr"), W32("width"), W32("height")>>],
   Vtn |-> [type |-> 16, size |-> 8, fields |-> <<R, P(1), U8("ucid"), En("action", VtnActionT), P(2)>>],
   Rst |-> [type |-> 17, size |-> 28, fields |-> <<R, P(1), RL("racelaps"), U8("qualmins"), U8("nump"), U8("timing"), Trk("track"),
@@ -358,7 +359,9 @@ EncField(f, rec, pos) ==
     [] f.k = "enum"   -> <<f.table[rec[f.name]]>>
     [] f.k = "flags"  -> BitBytes(FlagBits(rec[f.name], f.table), f.w)
     [] f.k = "str"    -> PadTo(rec[f.name], f.w)
-    [] f.k = "vstr"   -> LET t == rec[f.name]  n == Len(t)  r == ((n + 3) \div 4) * 4 IN PadTo(t, IF r > f.max THEN f.max ELSE r)
+    [] f.k = "vstr"   -> LET t == IF f.nul /\ Len(rec[f.name]) > f.max - 1 THEN SubSeq(rec[f.name], 1, f.max - 1) ELSE rec[f.name]
+                             n == Len(t)  r == IF f.nul THEN ((n + 4) \div 4) * 4 ELSE ((n + 3) \div 4) * 4
+                         IN PadTo(t, IF r > f.max THEN f.max ELSE r)
     [] f.k = "dur"    -> DurBytes(rec[f.name], f.scale, f.w)
     [] f.k = "racelaps" -> <<RaceLapsByte(rec[f.name])>>
     [] f.k = "fuel"   -> <<FuelByte(rec[f.name])>>
